@@ -200,3 +200,47 @@ func b58Lengths(g *vlib.Rng) {
 		}
 	}
 }
+
+// notAddresses: well-formed Base58Check objects that are NOT 25-byte addresses, offered to NewAddrFromString:
+// (a) version ‖ 20-byte hash ‖ 1..15 further bytes ‖ checksum over ALL of it (26..40 bytes; b58Lengths above has a
+// checksum over the first 21 bytes only, followed by garbage), for the version bytes in use and random ones;
+// (b) a complete valid address payload (25 bytes) wrapped once more (‖ extra ‖ new checksum); (c) valid WIF private
+// keys, compressed and not, main/test/other versions; (d) extended-key sized objects (78+4 bytes); (e) checksummed
+// objects shorter than an address. All must be refused (reference: exactly 25 bytes). Added after the seeded change
+// "shared b58check() helper, the 'payload must be exactly 25 bytes' branch lost" gave only model/impl differences.
+func notAddresses(g *vlib.Rng) {
+	ck := func(p []byte) string { return refB58Encode(append(append([]byte{}, p...), dsha(p)[:4]...)) }
+	vers := []byte{0, 5, 111, 196, 48, 128, 239, 176}
+	for total := 26; total <= 40; total++ {
+		for _, v := range append(append([]byte{}, vers...), byte(g.U64()), byte(g.U64())) {
+			p := append([]byte{v}, g.Bytes(total-5)...)
+			r.Hit("b58-long-checksummed")
+			checkAddr("b58-long-checksummed", ck(p))
+		}
+	}
+	for i := 0; i < r.N(600, 20000); i++ {
+		v := vers[g.Intn(len(vers))]
+		if g.Chance(1, 4) {
+			v = byte(g.U64())
+		}
+		switch g.Intn(5) {
+		case 0:
+			checkAddr("b58-long-checksummed", ck(append([]byte{v}, g.Bytes(21+g.Intn(15))...)))
+		case 1: // a valid address payload wrapped once more
+			p := append([]byte{v}, g.Bytes(20)...)
+			p = append(p, dsha(p)[:4]...)
+			checkAddr("b58-address-wrapped", ck(append(p, g.Bytes(g.Intn(8))...)))
+		case 2: // WIF private key
+			pl := append([]byte{byte(g.Pick(0x80, 0x80, 0xef, 0xb0, int(v)))}, wifKey(g)...)
+			if g.Bool() {
+				pl = append(pl, 1)
+			}
+			r.Hit("wif-as-address")
+			checkAddr("wif-as-address", mkWif(pl))
+		case 3: // extended-key sized
+			checkAddr("b58-xkey-sized", ck(append([]byte{4, 0x88, byte(g.Pick(0xb2, 0xad)), byte(g.Pick(0x1e, 0xe4))}, g.Bytes(74)...)))
+		case 4: // shorter than an address
+			checkAddr("b58-short-checksummed", ck(append([]byte{v}, g.Bytes(g.Intn(20))...)))
+		}
+	}
+}
